@@ -112,6 +112,18 @@ def do_render(req):
             apps.append({'args': args, 'argstrs': [a.pretty(opts) for a in pa], 'out': N(*pa).pretty(opts), 'ok': True})
         except Exception as e:   # noqa
             apps.append({'args': args, 'argstrs': [], 'out': type(e).__name__, 'ok': False})
+            continue
+        if N.arity >= 2 and req.get('via', True):
+            # the same application reached by instantiating N(phi_20, phi_21, ...) in two steps (later holes first)
+            from proof_generation.pattern import MetaVar
+            try:
+                app = N(*[MetaVar(20 + i) for i in range(N.arity)])
+                late = {20 + i: pa[i] for i in range(N.arity) if i % 2 == 1}
+                early = {20 + i: pa[i] for i in range(N.arity) if i % 2 == 0}
+                app = app.instantiate(late).instantiate(early)
+                apps.append({'args': args, 'argstrs': apps[-1]['argstrs'], 'out': app.pretty(opts), 'ok': True})
+            except Exception as e:   # noqa
+                apps.append({'args': args, 'argstrs': [], 'out': type(e).__name__, 'ok': False})
     return {'label': req['label'], 'arity': N.arity, 'definition': B.to_json(N.definition), 'holes': holes, 'format': N.format_str, 'apps': apps}
 
 
